@@ -91,7 +91,7 @@ def run(ctx, prop):
     from concurrent.futures import ProcessPoolExecutor
     import multiprocessing
     os.environ["VERIF_JOBS"] = "2"
-    with ProcessPoolExecutor(max_workers=8, mp_context=multiprocessing.get_context("fork")) as ex:
+    with ProcessPoolExecutor(max_workers=14, mp_context=multiprocessing.get_context("fork")) as ex:
         outs = list(ex.map(_one, jobs))
     bad = []
     for r in outs:
